@@ -23,6 +23,10 @@ pub struct Case {
     pub client_szx: Option<u8>,
     pub body_len: usize,
     pub reply_len: usize,
+    /// downloads: after block 0 jump to the block numbers where the option
+    /// value grows (15/16, 255/256, 4095/4096) and to the last block
+    #[serde(default)]
+    pub high_blocks: bool,
 }
 
 impl Case {
@@ -166,6 +170,40 @@ fn run_download(c: &Case, acc: &mut Acc) -> Result<bool, Fail> {
         received += resp.payload.len();
         blocks += 1;
         if !b.more {
+            break;
+        }
+        if c.high_blocks {
+            // jump through the block numbers where the Block2 value changes length
+            let last = ((c.body_len - 1) / b.size()) as u32;
+            let probes: Vec<u32> = [1u32, 15, 16, 255, 256, 4095, 4096, 65535, last]
+                .into_iter()
+                .filter(|n| *n <= last && *n <= 65535)
+                .collect();
+            for n in probes {
+                mid = mid.wrapping_add(1);
+                let req = c.request(mid, None, Some(block_bytes(n, false, b.szx)), vec![]);
+                let out = exchange(&mut handler, &req.msg().encode().unwrap(), 1, &mut |_r| Some(reply.clone()));
+                if let Some(msg) = out.panicked() {
+                    fail!("c10-panic", "handler panicked on block {n} ({ctx}): {msg}");
+                }
+                let Some(bytes) = &out.response_bytes else { continue };
+                ensure!(
+                    bytes.len() <= c.budget,
+                    "c10-response-exceeds-budget",
+                    "block {n} of a long download encodes to {} bytes, over the budget {} ({ctx})",
+                    bytes.len(),
+                    c.budget
+                );
+                if let Some(r) = &out.response {
+                    if let Some(bb) = find_opt(r, OPT_BLOCK2).and_then(|x| parse_block(x)) {
+                        check_block_size("Block2", &bb, Some(b.szx), &ctx)?;
+                    }
+                }
+                acc.class("download:high-block-number-probe");
+                if n == last {
+                    break;
+                }
+            }
             break;
         }
         ensure!(blocks <= c.body_len / 16 + 3, "c10-no-progress", "download does not finish ({ctx})");
@@ -364,6 +402,7 @@ fn case() -> BoxedStrategy<Case> {
                 client_szx,
                 body_len: body_len.min(6000),
                 reply_len,
+                high_blocks: false,
             };
             let lo = c.min_budget();
             let hi = 1280usize;
@@ -373,6 +412,11 @@ fn case() -> BoxedStrategy<Case> {
             } else {
                 let pick = match kind {
                     0 => lo + r as usize % 4,
+                    5 => {
+                        // anywhere in the 0..=36 bytes above overhead + 2^k
+                        let k = 4 + (r as usize % 7);
+                        overhead + (1usize << k) + (r as usize >> 4) % 37
+                    }
                     1 => hi - r as usize % 3,
                     2 | 3 | 4 => {
                         let k = 4 + (r as usize % 7);
@@ -406,6 +450,7 @@ pub fn run(ctx: &Ctx, rep: &mut Report) {
                 client_szx,
                 body_len: 2500,
                 reply_len: 3,
+                high_blocks: false,
             };
             let overhead = if upload { base.request_overhead() } else { base.reply().overhead(4) };
             let lo = base.min_budget();
@@ -439,6 +484,93 @@ pub fn run(ctx: &Ctx, rep: &mut Report) {
             check(ctx, c, acc, true)?;
             Ok(())
         },
+    );
+    // every budget in the 37 bytes above overhead + 2^k, for several overhead
+    // shapes (token length, Block option with and without extended delta)
+    let mut fine = Vec::new();
+    for upload in [false, true] {
+        for token_len in [0u8, 8] {
+            for resp_options in [vec![], vec![(4u16, vec![7u8; 4])], vec![(12u16, vec![42u8]), (14, vec![60])]] {
+                for client_szx in [None, Some(1u8), Some(6)] {
+                    let mut base = Case {
+                        upload,
+                        budget: 0,
+                        token_len,
+                        con: token_len == 0,
+                        method: if upload { 2 } else { 1 },
+                        path: vec![b"p".to_vec()],
+                        req_extra: vec![],
+                        resp_options: resp_options.clone(),
+                        client_szx,
+                        body_len: 600,
+                        reply_len: 0,
+                        high_blocks: false,
+                    };
+                    let overhead = if upload { base.request_overhead() } else { base.reply().overhead(token_len as usize) };
+                    let lo = base.min_budget();
+                    for k in 4..=8 {
+                        for j in 0..=36usize {
+                            let b = overhead + (1usize << k) + j;
+                            if b >= lo && b <= 1280 {
+                                base.budget = b;
+                                base.body_len = (40usize << k).min(6000);
+                                fine.push(base.clone());
+                            }
+                        }
+                    }
+                }
+            }
+        }
+    }
+    run_list(
+        ctx,
+        rep,
+        "every-budget-above-each-power-of-two",
+        "downloads and uploads: every budget overhead + 2^k + j (k = 4..=8, j = 0..=36) x token length 0/8 x response option sets that make the Block option need an extended delta or not x client size exponent none/1/6; bodies long enough for two-byte block numbers",
+        true,
+        fine,
+        |ctx, c: &Case, acc| check(ctx, c, acc, true),
+    );
+    // long downloads: three-byte block numbers
+    let mut long = Vec::new();
+    for token_len in [0u8, 8] {
+        for resp_options in [vec![], vec![(4u16, vec![7u8; 4])]] {
+            let mut base = Case {
+                upload: false,
+                budget: 0,
+                token_len,
+                con: true,
+                method: 1,
+                path: vec![b"p".to_vec()],
+                req_extra: vec![],
+                resp_options: resp_options.clone(),
+                client_szx: None,
+                body_len: 0,
+                reply_len: 0,
+                high_blocks: true,
+            };
+            let overhead = base.reply().overhead(token_len as usize);
+            let lo = base.min_budget();
+            for k in 4..=6 {
+                for j in 0..=36usize {
+                    let b = overhead + (1usize << k) + j;
+                    if b >= lo {
+                        base.budget = b;
+                        base.body_len = (4100usize << k) + 3;
+                        long.push(base.clone());
+                    }
+                }
+            }
+        }
+    }
+    run_list(
+        ctx,
+        rep,
+        "long-downloads-high-block-numbers",
+        "downloads of more than 4100 blocks (block sizes 16..64): every budget overhead + 2^k + j (j = 0..=36); after block 0 the client jumps to blocks 1, 15, 16, 255, 256, 4095, 4096 and the last one, where the Block2 option value changes length",
+        true,
+        long,
+        |ctx, c: &Case, acc| check(ctx, c, acc, true),
     );
     let n = ctx.cases(120_000, 2_000_000);
     run_prop(
